@@ -545,12 +545,17 @@ String Json::stripComments(const String& data)
           const char* end = String::findOneOf(src, "\r\n*");
           if (end)
           {
-            if (*end == '*' && end[1] == '/')
+            if (*end == '*')
             {
-              src = end + 2;
-              goto checkStr;
+              if (end[1] == '/')
+              {
+                src = end + 2;
+                goto checkStr;
+              }
+              src = end + 1; // a lone '*' is part of the comment
+              continue;
             }
-            *(dest++) = *(end++);
+            *(dest++) = *(end++); // keep line breaks
             src = end;
             continue;
           }
@@ -569,9 +574,9 @@ String Json::stripComments(const String& data)
     for(*(dest++) = *(src++);; *(dest++) = *(src++))
     {
       if (*src == '\\' && src[1])
-      {
+      { // copy the backslash here and the escaped character with the loop increment, stay inside the literal
         *(dest++) = *(src++);
-        goto checkStr;
+        continue;
       }
       if (*src == '"')
       {
